@@ -256,6 +256,9 @@ class C17(Property):
             ctx.skip("constant")
             return
         k, S = get_structure_factor(ScalarField(grid, data), smoothing=None)
+        n_modes = int(np.prod(shape)) - 1
+        if not ctx.require(np.shape(k) == (n_modes,) and np.shape(S) == (n_modes,), "structure-factor:shape", f"k {np.shape(k)} / S {np.shape(S)} for {n_modes} non-zero modes"):
+            return
         # group by wave number: the radial profile; require a unique clear maximum
         order = np.argsort(-S)
         top = S[order[0]]
